@@ -42,6 +42,8 @@ Alphabet ==
       Call("HB", -1, "vec"), Call("HB", N, "junk"), Call("HB", Me, "vec")}
 \cup {Call("HP", 0, "share"), Call("HP", N, "share"), Call("HP", -1, "share")}
 \cup {Call("FD", 0, "none"), Call("FD", 2, "none"), Call("FD", -1, "none"), Call("FD", N, "none")}
+\* out-of-range values that are congruent to an in-range index modulo 256 (participant indices are bytes internally)
+\cup {Call("HP", 256, "share"), Call("HB", 256, "vec"), Call("FD", 256, "none")}
 
 VARIABLES phase,    \* "new" | "running" | "ended"
           ps,       \* Qual / JF: [Dealers -> instance];  fvss: the plain record below
